@@ -166,10 +166,14 @@ def simple_for_twins(s):
     return True
 
 
-def mon_C08(s, k=4):
+def mon_C08(s, k=None):
     if not s["ops"] or s["ops"][0]["op"] != "init" or not is_acyclic(s) or not simple_for_twins(s):
         return []
     defn, lang, inputs = s["def"], s["lang"], s["ops"][0].get("inputs") or {}
+    if k is None:
+        # more completion orders for larger definitions: a straggling short branch beside a long
+        # one is rare among uniformly drawn orders
+        k = 4 if len(defn["tasks"]) <= 5 else 12
     seed = core.dumps(defn)
     runs = []
     for j in range(k):
